@@ -12,6 +12,11 @@ EDITS = [
  ("primes-commute", "C17", "src/fbase.rs", "            let p = 2 * i + 1;\n            primes.push(p as u32);", "            let p = i * 2 + 1;\n            primes.push(p as u32);"),
  ("rename-primes", "C17", "src/fbase.rs", None, ("primes", {"bound": "limit"})),
  ("rename-factor-impl", "C01", "src/lib.rs", None, ("factor_impl", {"is_perfect_power": "pp", "alg_real": "algo2"})),
+ ("rename-sieve", "C17", "src/fbase.rs", None, ("next", {"o3p": "next_o"})),
+ ("reflow-sieve", "C17", "src/fbase.rs", "                    self.block.push(((self.block_count << 16) + idx) as u32);", "                    self.block\n                        .push(((self.block_count << 16) + idx) as u32);"),
+ ("comment-invmod", "C08", "src/arith.rs", "        let x = if e.x < 0 { e.x + p as i128 } else { e.x };", "        // make the cofactor non-negative\n        let x = if e.x < 0 { e.x + p as i128 } else { e.x };"),
+ ("rename-pm1", "C16", "src/pollard_pm1.rs", None, ("factor", {"xr240": "x240", "fmax": "nblocks"})),
+ ("swap-pm1", "C16", "src/pollard_pm1.rs", "        let xr480 = mg_mul(n, ninv, xr240, xr240);\n        let xr502 = mg_mul(n, ninv, xr480, jumps[22 / 2 - 1]);", "        let xr480 = mg_mul(n, ninv, xr240, xr240);\n\n        let xr502 = mg_mul(n, ninv, jumps[22 / 2 - 1], xr480);"),
  ("comment-factor", "C01", "src/lib.rs", "    if n.is_one() {\n        return;\n    }\n    let is_perfect_power", "    // nothing to do for 1\n    if n.is_one() {\n        return;\n    }\n\n    let is_perfect_power"),
 ]
 def fn_span(t, name):
